@@ -476,9 +476,9 @@ def linalg_case(draw):
 def parts(tier):
     return [
         Part("construct", strategy=lambda t: construct_case(), check=check_construct, quick=(8, 400),
-             thorough=(16, 8000)),
+             thorough=(16, 5000)),
         Part("from_list", strategy=lambda t: from_list_case(), check=check_from_list, quick=(4, 700),
-             thorough=(6, 10000)),
-        Part("to_list", strategy=lambda t: to_list_case(), check=check_to_list, quick=(4, 300), thorough=(6, 6000)),
-        Part("linalg", strategy=lambda t: linalg_case(), check=check_linalg, quick=(4, 300), thorough=(6, 6000)),
+             thorough=(4, 8000)),
+        Part("to_list", strategy=lambda t: to_list_case(), check=check_to_list, quick=(4, 300), thorough=(6, 5000)),
+        Part("linalg", strategy=lambda t: linalg_case(), check=check_linalg, quick=(4, 300), thorough=(6, 5000)),
     ]
